@@ -72,14 +72,48 @@ Entries(z) ==
 BaseEntries == {Entry(B0, {"c", "c:b"}, {"s\nf1\nf2"}), Entry(B2, {"d"}, {})}
 ServerVecs(z) == {[fam |-> "server", cfg |-> SrvCfg, rep |-> {e} \cup more] : e \in Entries(0), more \in {{}} \cup {{b} : b \in BaseEntries}}
 
+(* Nested program paths.  Package paths and counter names both contain "/":   *)
+(* program P = example.com/tools lists counters and stacks named gopls/<name>, *)
+(* program P/gopls is a different program of the same configuration.  The     *)
+(* string "P/gopls/<name>" splits into (program, name) in two ways; approval   *)
+(* is by the pair: what P lists as gopls/<name> says nothing about <name> of  *)
+(* P/gopls (nor does a version "gopls/v1.2.0" of P list version v1.2.0 there). *)
+PN  == "example.com/tools"
+PNX == "example.com/tools/gopls"
+BN   == [program |-> PN,  version |-> V1, gover |-> G1, goos |-> "linux", goarch |-> "amd64"]
+BNX  == [program |-> PNX, version |-> V1, gover |-> G1, goos |-> "linux", goarch |-> "amd64"]
+BNX2 == [program |-> PNX, version |-> "v1.2.0", gover |-> G1, goos |-> "linux", goarch |-> "amd64"]
+NestedToks == {"editor:vim", "editor:emacs", "editor:", "editor", "c", "bug\nf1\nf2", "bug", "d",
+               "gopls/editor:vim", "gopls/c", "gopls/bug\nf1", "/editor:vim", "tools/gopls/c"}
+Inner == {[c |-> {}, s |-> {}],
+          [c |-> {E("d", D)}, s |-> {}],
+          [c |-> {E("d", D), E("editor:{vim}", D \div 4)}, s |-> {E("bug", D \div 4)}],
+          [c |-> {E("gopls/c", D), E("c", D \div 4)}, s |-> {E("gopls/bug", D)}]}
+NestedCfg(r, inner) ==
+    Cfg({Prog(PN, {V1, "gopls/v1.2.0"}, {E("gopls/editor:{vim,emacs}", r), E("gopls/c", r), E("c", D)}, {E("gopls/bug", r)}),
+         Prog(PNX, {V1}, inner.c, inner.s)}, D)
+NestedVecs(z) ==
+    {V("nested", NestedCfg(r, inner), fs, x) :
+        r \in {D \div 4, D}, inner \in Inner, x \in {1, D \div 2},
+        fs \in {{File(1, BNX, 1, NestedToks)},
+                {File(1, BNX, 1, NestedToks), File(2, BN, 1, NestedToks)},
+                {File(1, BNX2, 1, {"d", "editor:vim", "c"}), File(2, BN, 1, {"gopls/c", "c"})}}}
+NestedServerVecs(z) ==
+    {[fam |-> "server", cfg |-> NestedCfg(D, inner), rep |-> {Entry(b, cs, ss)} \cup more] :
+        inner \in Inner, b \in {BNX, BNX2, BN},
+        cs \in {{}, {"editor:vim"}, {"c"}, {"d"}, {"gopls/c"}, {"gopls/editor:emacs"}, {"editor"}},
+        ss \in {{}, {"bug\nf1\nf2"}, {"gopls/bug\nf1"}},
+        more \in {{}, {Entry(BN, {"gopls/c", "c"}, {"gopls/bug\nf1"})}}}
+
 VecSet == CASE Family = "names"  -> NamesVecs(0)
             [] Family = "rates"  -> RatesVecs(0)
             [] Family = "shared" -> SharedVecs(0)
             [] Family = "builds" -> BuildsVecs(0)
             [] Family = "sums"   -> SumsVecs(0)
             [] Family = "server" -> ServerVecs(0)
-            [] Family = "c11"    -> NamesVecs(0) \cup BuildsVecs(0) \cup ServerVecs(0)
-            [] Family = "c01"    -> NamesVecs(0) \cup RatesVecs(0) \cup SharedVecs(0) \cup BuildsVecs(0) \cup SumsVecs(0)
+            [] Family = "nested" -> NestedVecs(0) \cup NestedServerVecs(0)
+            [] Family = "c11"    -> NamesVecs(0) \cup BuildsVecs(0) \cup ServerVecs(0) \cup NestedVecs(0) \cup NestedServerVecs(0)
+            [] Family = "c01"    -> NamesVecs(0) \cup RatesVecs(0) \cup SharedVecs(0) \cup BuildsVecs(0) \cup SumsVecs(0) \cup NestedVecs(0)
 IsSrv(v) == v.fam = "server"
 Vecs == {v \in VecSet : IF IsSrv(v) THEN ConfigOK(CCfg(v.cfg), D) ELSE InDomain(v)}
 
